@@ -44,7 +44,7 @@ def run_one(m, benign):
         if b.returncode != 0:
             return (m, "broken", "variant does not compile: " + b.stderr[-400:])
         ev = os.path.join(d, "ev.json")
-        r = subprocess.run([os.path.join(HERE, "bin/bblint"), "-repo", d, "-property", m["prop"], "-evidence", ev,
+        r = subprocess.run([os.environ.get("BBLINT", os.path.join(HERE, "bin/bblint")), "-repo", d, "-property", m["prop"], "-evidence", ev,
                             "-known", os.path.join(HERE, "known_findings.json")], capture_output=True, text=True)
         out = r.stdout
         if benign:
